@@ -209,19 +209,44 @@ func (e *v1Engine) Check(rq fga.Req, ctxTuples []fga.Tuple) string {
 	return Canon(res, err)
 }
 
-// SlowReads delays the reads that feed the right-hand side of the fast paths (Read, ReadUsersetTuples), so
-// that producers run ahead of their consumer: exposes buffer-reuse and cancellation mistakes.
+// SlowReads delays the FIRST item of the iterators that feed the right-hand side of the fast paths (Read,
+// ReadUsersetTuples), so that the producers of the other side run ahead of their consumer: exposes
+// buffer-reuse and cancellation mistakes.
 type SlowReads struct {
 	storage.OpenFGADatastore
 	Delay time.Duration
 }
 
+type slowIter struct {
+	storage.TupleIterator
+	once  sync.Once
+	delay time.Duration
+}
+
+func (s *slowIter) wait() { s.once.Do(func() { time.Sleep(s.delay) }) }
+
+func (s *slowIter) Next(ctx context.Context) (*openfgav1.Tuple, error) {
+	s.wait()
+	return s.TupleIterator.Next(ctx)
+}
+
+func (s *slowIter) Head(ctx context.Context) (*openfgav1.Tuple, error) {
+	s.wait()
+	return s.TupleIterator.Head(ctx)
+}
+
 func (s SlowReads) Read(ctx context.Context, store string, f storage.ReadFilter, o storage.ReadOptions) (storage.TupleIterator, error) {
-	time.Sleep(s.Delay)
-	return s.OpenFGADatastore.Read(ctx, store, f, o)
+	it, err := s.OpenFGADatastore.Read(ctx, store, f, o)
+	if err != nil {
+		return nil, err
+	}
+	return &slowIter{TupleIterator: it, delay: s.Delay}, nil
 }
 
 func (s SlowReads) ReadUsersetTuples(ctx context.Context, store string, f storage.ReadUsersetTuplesFilter, o storage.ReadUsersetTuplesOptions) (storage.TupleIterator, error) {
-	time.Sleep(s.Delay)
-	return s.OpenFGADatastore.ReadUsersetTuples(ctx, store, f, o)
+	it, err := s.OpenFGADatastore.ReadUsersetTuples(ctx, store, f, o)
+	if err != nil {
+		return nil, err
+	}
+	return &slowIter{TupleIterator: it, delay: s.Delay}, nil
 }
